@@ -39,6 +39,11 @@ CLAIMED.update({
          "Trusted: go/ssa, symgo (region merging), the convert.c transcriptions in harness/C31, in-memory filesystem model, recording hash, z3. Outside: longer contents, .gitattributes, core.safecrlf, git's CR-in-index rule."),
 })
 
+CLAIMED.update({
+ "C19": ("Inductive-step solver verdict (no bound on history length): from an arbitrary reachable state of a transactional reference store over two names with symbolic hashes, one operation with symbolic arguments leaves every read and the listing equal to base+pending and the base unchanged; Commit from an arbitrary state makes the base equal to the view; same for two objects. Three genuine defects were found this way and repaired.",
+         "Trusted: go/ssa, symgo, the reachable-state invariant stated in harness/C19 (a removed name is absent from the pending set), memory base storages, recording hash, z3. Outside: filesystem bases, more than two names/objects, index/shallow/config/reflog overlays."),
+})
+
 NA_REASON = {
  "C05": "needs the real SHA-1 compression function on published collision blocks and Go's cross-package init order; the hash is necessarily an uninterpreted stub under symbolic execution",
  "C11": "read paths = OS filesystem + real zlib + caches over histories; solver-sized pieces are claimed under C06/C09/C10/C24",
